@@ -280,6 +280,18 @@ CONTEXTS = {
 }
 
 
+def OPT_UNITS(tier):
+    """Units repeated in an interpreter started with -O: validation must
+    not live in assert statements."""
+    us = plan(tier)['units']
+    keep = [u for u in us if u[0] in ('chars-short', 'prefix', 'contexts')]
+    keep += [u for u in us if u[0] == 'tokens'][:1]
+    keep += [u for u in us if u[0] == 'chars'][:20]
+    keep += [u for u in us if u[0] == 'bytes'][:3]
+    keep += [u for u in us if u[0] == 'line-start'][:1]
+    return keep
+
+
 def run_unit(unit, tier):
     acc = Acc()
     try:
